@@ -46,8 +46,10 @@ def run(ctx):
     _predict(ctx, prog.func("mokapot.brew._predict"))
     _split(ctx, prog.func("mokapot.dataset.OnDiskPsmDataset._split"))
     _parse_in_chunks(ctx)
-    from .c05 import _models_sorted
+    from .c05 import _models_sorted, _parquet_index
     _models_sorted(ctx)
+    # the scores are put back in input order by the row index of the chunks
+    _parquet_index(ctx)
 
 
 # ------------------------------------------------------------------ a
